@@ -2,6 +2,7 @@ import hashlib
 import os
 
 import pv
+READY = True
 
 SPEC = {
     "targets": ["Properties/C11.vo", "Run/C11.vo"],
